@@ -681,7 +681,7 @@ const CLASS_NAMES: &[&str] = &[
 const XML_OPS: &[&str] = &[
     "delete-element", "delete-closing-tag", "rename-element", "replace-text", "delete-attribute",
     "change-attribute", "duplicate-attribute", "duplicate-element", "swap-elements", "drop-last-token", "duplicate-first-token",
-    "truncate-text",
+    "truncate-text", "duplicate-as-other-type",
 ];
 
 const XML_NAMES: &[&str] = &[
@@ -780,7 +780,7 @@ fn apply_xml_edit(file: &mut Vec<u8>, op: u8, which: u32, arg: u32) -> bool {
     let k = opens[which as usize % opens.len()];
     let t = tags[k].clone();
     let close = matching_close(&tags, k);
-    match op % 12 {
+    match op % 13 {
         0 => {
             // delete the whole element
             let end = close.map(|c| tags[c].end).unwrap_or(t.end);
@@ -842,7 +842,7 @@ fn apply_xml_edit(file: &mut Vec<u8>, op: u8, which: u32, arg: u32) -> bool {
                 return false;
             }
             let (a, vs, ae) = attrs[arg as usize % attrs.len()];
-            match op % 12 {
+            match op % 13 {
                 4 => {
                     file.drain(inner_start + a..inner_start + ae);
                 }
@@ -862,6 +862,30 @@ fn apply_xml_edit(file: &mut Vec<u8>, op: u8, which: u32, arg: u32) -> bool {
             let copy = file[t.start..end].to_vec();
             file.splice(end..end, copy);
         }
+        12 => {
+            // A second element with the same attributes (same property name) but
+            // another type tag and, half of the time, another text.
+            let end = close.map(|c| tags[c].end).unwrap_or(t.end);
+            let mut copy = file[t.start..end].to_vec();
+            let new = XML_NAMES[arg as usize % XML_NAMES.len()];
+            if let Some(c) = close {
+                if c != k {
+                    let ct = &tags[c];
+                    let rel = ct.start - t.start;
+                    copy.splice(rel + 2..rel + 2 + ct.name.len(), new.bytes());
+                }
+            }
+            copy.splice(1..1 + t.name.len(), new.bytes());
+            if arg % 2 == 0 {
+                // replace the text directly after the (renamed) opening tag
+                if let Some(gt) = copy.iter().position(|&b| b == b'>') {
+                    let text_end = copy[gt + 1..].iter().position(|&b| b == b'<').map(|p| gt + 1 + p).unwrap_or(copy.len());
+                    let txt = XML_TEXTS[(arg as usize / 3) % XML_TEXTS.len()];
+                    copy.splice(gt + 1..text_end, txt.bytes());
+                }
+            }
+            file.splice(end..end, copy);
+        }
         9 | 10 | 11 => {
             // surgery on the whitespace-separated text that follows the opening tag
             let text_end = file[t.end..].iter().position(|&b| b == b'<').map(|p| t.end + p).unwrap_or(file.len());
@@ -869,7 +893,7 @@ fn apply_xml_edit(file: &mut Vec<u8>, op: u8, which: u32, arg: u32) -> bool {
             if text.iter().all(|b| b.is_ascii_whitespace()) {
                 return false;
             }
-            let new: Vec<u8> = match op % 12 {
+            let new: Vec<u8> = match op % 13 {
                 9 => {
                     let trimmed_end = text.iter().rposition(|b| !b.is_ascii_whitespace()).map(|p| p + 1).unwrap_or(0);
                     let cut = text[..trimmed_end].iter().rposition(|b| b.is_ascii_whitespace()).unwrap_or(0);
@@ -1081,7 +1105,7 @@ impl IoSim {
                 snap: r.chance(3, 4),
             },
             9 => Edit::RandomTail { keep: pos, len: r.range(0, 64) as u32, seed: r.next_u64() >> 16 },
-            10 => Edit::Xml { op: r.below(12) as u8, which: r.next_u64() as u32, arg: r.next_u64() as u32 },
+            10 => Edit::Xml { op: r.below(13) as u8, which: r.next_u64() as u32, arg: r.next_u64() as u32 },
             11 => Edit::PropType { which: r.next_u64() as u32, ty: r.below(0x24) as u8 },
             12 => Edit::PropRename { which: r.next_u64() as u32, name: r.below(PROP_NAMES.len() as u64) as u8 },
             13 => Edit::InstRename { which: r.next_u64() as u32, class: r.below(CLASS_NAMES.len() as u64) as u8 },
@@ -1822,8 +1846,8 @@ impl IoSim {
                 let mut damaged = file.clone();
                 for e in edits {
                     self.apply_edit(format, &mut damaged, e, 0, ctx);
-                    if damaged.len() > (2 << 20) {
-                        damaged.truncate(2 << 20);
+                    if damaged.len() > (4 << 20) {
+                        damaged.truncate(4 << 20);
                     }
                 }
                 if matches!(t.workload, Workload::Random { .. }) {
@@ -1876,11 +1900,8 @@ impl Engine for IoSim {
     }
 
     fn scripted(&self, _property: &str, thorough: bool) -> u64 {
-        if thorough {
-            10
-        } else {
-            6
-        }
+        let _ = thorough;
+        14
     }
 
     fn generate(&self, run_seed: u64, index: u64, _property: &str, thorough: bool) -> Value {
@@ -1937,6 +1958,24 @@ impl Engine for IoSim {
                 workload: Workload::DeepChain { depth: 3_000 },
                 scenario: Scenario::Prefixes { only: None, stride: 211 },
             }),
+            // One chunk with more than 1 MiB / 2 MiB of payload actually present
+            // (incompressible, so the compressed form is that large too).
+            10 | 11 | 12 | 13 => {
+                let len = if index % 2 == 0 { 1_300_000 } else { 2_400_000 };
+                let mut rr = Rng::new(index);
+                Some(IoTrace {
+                    format: if index < 12 { Format::BinNone } else { Format::BinLz4 },
+                    workload: Workload::Dom {
+                        tree: NodeSpec {
+                            class: "Folder".into(),
+                            name: "big".into(),
+                            props: vec![("VerifHuge".into(), ValSpec::Bytes(rr.bytes(len)))],
+                            children: vec![],
+                        },
+                    },
+                    scenario: Scenario::Delivery { plan: ReadPlan { mode: 2, intr_permille: 30, seed: index } },
+                })
+            }
             _ => None,
         };
         if let Some(t) = scripted {
